@@ -39,6 +39,7 @@ type EP struct {
 	Store        string   `json:"store,omitempty"`  // name of a session store in the Env
 	Window       int      `json:"win,omitempty"`
 	IntervalMs   int      `json:"ivl,omitempty"`
+	IntervalUs   int      `json:"ivlus,omitempty"` // microseconds added to IntervalMs
 	NoBackoff    bool     `json:"nobackoff,omitempty"`
 	Padding      int      `json:"pad,omitempty"`
 	ServerName   string   `json:"sni,omitempty"`
@@ -310,8 +311,8 @@ func (ep *EP) shared(env *Env, role string) ([]dtls.Option, error) {
 	if ep.Window > 0 {
 		o = append(o, dtls.WithReplayProtectionWindow(ep.Window))
 	}
-	if ep.IntervalMs > 0 {
-		o = append(o, dtls.WithFlightInterval(time.Duration(ep.IntervalMs)*time.Millisecond))
+	if ep.IntervalMs > 0 || ep.IntervalUs > 0 {
+		o = append(o, dtls.WithFlightInterval(time.Duration(ep.IntervalMs)*time.Millisecond+time.Duration(ep.IntervalUs)*time.Microsecond))
 	}
 	if ep.NoBackoff {
 		o = append(o, dtls.WithDisableRetransmitBackoff(true))
